@@ -7,7 +7,7 @@ import json
 from .. import bg, codonspec, common, gen, sge
 from ..runner import Ctx, coq_bool, coq_dna, coq_eval, coq_list, coq_z, pool_map
 
-IMPORTS = ['Model.Base', 'Model.Pattern', 'Model.CodonTable', 'Model.BgValidate']
+IMPORTS = ['Model.Base', 'Model.Pattern', 'Model.CodonTable', 'Model.BgValidate', 'Model.Gpo', 'Model.Context', 'Model.PpeSeq']
 SUFFIXES = ('_meta.csv', '_meta_excluded.csv', '_unique.csv', '_ref.vcf', '_pam.vcf')
 
 
@@ -353,12 +353,30 @@ def check(ctx: Ctx, d: dict, r: dict, exprs: list, meta: list):
             ctx.violation('spec_violation', f'refused run left library files of the offending targeton: {left}', {'surface': 'file', 'design': d, 'files': left})
     # the decision loop of the model on the classified variants of each targeton up to the verdict
     tb = codonspec.Table(d.get('codon_table'))
-    if (o.get('force_fs') and not o.get('force_ns')) or (d.get('c15_kind') or '').startswith('pam_on'):
+    if o.get('force_fs') and not o.get('force_ns'):
         return
+    # the three refusal rules of proc_targeton in sequence: the validation loop over the variants starting in the targeton, the edits of the
+    # targeton's guides that have no image in the background sequence (offsets over the context the model of get_gpo_ctx returns), the edits
+    # on a coding base inside the reference span of a background variant
+    allv = bg.unmasked_variants(d)
+    exons = gen.exons_of(d)
+    fr = codonspec.Frame(exons, d['strand']) if exons else None
+    los = [t['ref_start'] for t in d['targetons']] + [e[0] for e in exons]
+    his = [t['ref_end'] for t in d['targetons']] + [e[1] for e in exons]
+    ca, cb = min(los) - (1 if min(los) > 1 else 0), max(his)
+    stats = coq_list(f'mkVS {p_} {len(r_)} {len(a_)}' for p_, r_, a_ in allv)
+    spans = coq_list(f'({p_}, {p_ + max(0, len(r_) - 1)})' for p_, r_, a_ in allv)
     for i, mine in enumerate(per_t):
         want_err = refused and i == idx
+        t = d['targetons'][i]
+        ids = set(t.get('sgrna') or [])
+        mine_ppes = [e for e in d.get('pam') or [] if e['sgrna'] in ids]
+        inside = [e for e in mine_ppes if t['ref_start'] <= e['pos'] <= t['ref_end']]
         vs = coq_list(coq_bgvar(v, cls) for v, cls in mine)
-        exprs.append(f"is_ok (validate std_table {coq_bool(bool(o.get('force_ns')))} {coq_bool(bool(o.get('force_fs')))} {vs}) =? {coq_bool(not want_err)}")
+        exprs.append(f"is_ok (do _ <- validate std_table {coq_bool(bool(o.get('force_ns')))} {coq_bool(bool(o.get('force_fs')))} {vs}; "
+                     f"do gc <- gpo_ctx {stats} (mkRange {ca} {cb}); "
+                     f"do _ <- check_ppes_liftable (fst gc) {coq_list(coq_z(e['pos']) for e in mine_ppes)}; "
+                     f"check_ppe_bg {coq_list('(%d, %s)' % (e['pos'], coq_bool(fr is not None and e['pos'] in fr.idx)) for e in inside)} {spans}) =? {coq_bool(not want_err)}")
         meta.append((d, i))
 
 
